@@ -3,4 +3,4 @@ package e2checks
 import "verif/harness/core"
 
 // All lists the checks served by the E2 driver (vsx).
-var All = []core.Check{C17}
+var All = []core.Check{C11, C17}
